@@ -355,6 +355,9 @@ def line_sweep_programs(tier, seed=0):
         m = dict(menu)
         for name, items in menu:
             partners = [p for p in PARTNERS if p in m]
+            if tier != "quick":
+                h = int(hashlib.sha256(("%s:%s:%d" % (k, name, seed)).encode()).hexdigest()[:8], 16)
+                partners = [partners[(h + j) % len(partners)] for j in range(3)]
             if tier == "quick":
                 h = int(hashlib.sha256(("%s:%s:%d" % (k, name, seed)).encode()).hexdigest()[:8], 16)
                 partners = [partners[h % len(partners)]]
